@@ -29,6 +29,7 @@ fn main() {
             "oracle" => guarded(|| misc::oracle_line(&line)),
             "new" => guarded(|| misc::new_line(&line)),
             "threads" => guarded(|| misc::threads_line(&line)),
+            "opts" => guarded(|| misc::opts_line(&line)),
             _ => {
                 eprintln!("usage: frh <mode>");
                 std::process::exit(2);
